@@ -542,7 +542,7 @@ def feature_docs():
     add("child-fails-under-filtered-parent", mach(numa + pus + '<object type="Bridge" gp_index="70" bridge_type="0-1" depth="0" bridge_pci="0000:[01-01]"><object type="Frobnicator"/></object>\n'), loads=False, opts=0 | V)
     add("normal-under-pu", mach(numa + '<object type="PU" os_index="0" cpuset="0x3" complete_cpuset="0x3" nodeset="0x1" complete_nodeset="0x1">' + _obj("Core", 0, "0x3", "0x1", 9, v3=False) + "</object>\n"), loads=False, opts=4 | V)
     for par, ch in (("Misc", "PU"), ("PCIDev", "NUMANode"), ("Misc", "NUMANode"), ("NUMANode", "PCIDev"), ("Misc", "OSDev"), ("NUMANode", "PU")):
-        psets = ' cpuset="0x3" complete_cpuset="0x3" nodeset="0x1" complete_nodeset="0x1" os_index="7"' if par == "NUMANode" else ""
+        psets = ' cpuset="0x3" complete_cpuset="0x3" nodeset="0x2" complete_nodeset="0x2" os_index="1"' if par == "NUMANode" else ""   # a valid NUMA node: only the kind rule can refuse
         csets = ' cpuset="0x1" complete_cpuset="0x1" nodeset="0x1" complete_nodeset="0x1" os_index="0"' if ch in ("PU", "NUMANode") else ""
         add("child-kind-%s-under-%s" % (ch, par), mach(numa + pus + '<object type="%s"%s><object type="%s"%s/></object>\n' % (par, psets, ch, csets)), loads=False, opts=4 | V)
     add("cache-attrs-vs-type", mach(numa + '<object type="L2Cache" cpuset="0x3" complete_cpuset="0x3" nodeset="0x1" complete_nodeset="0x1" depth="3" cache_type="0">' + pus + "</object>\n"), loads=False, opts=4 | V)
